@@ -32,6 +32,7 @@ type clauseSpec struct {
 	Seq     int          `json:"seq"`
 	Returns bool         `json:"returns_form"`
 	Dups    uint         `json:"repeat_mask"` // bit k set: element k of the sequence repeats the value of element k-1
+	Split   int          `json:"returns_then_andreturn_from,omitempty"` // Returns form: elements from this index on are appended with AndReturn
 }
 
 type callSpec struct {
@@ -46,6 +47,7 @@ type caseSpec struct {
 	DefSeq     int          `json:"default_seq"`
 	DefReturns bool         `json:"default_returns_form"`
 	DefDups    uint         `json:"default_repeat_mask"`
+	DefSplit   int          `json:"default_returns_then_andreturn_from,omitempty"`
 	Clauses    []clauseSpec `json:"clauses"`
 	Calls      []callSpec   `json:"calls"`
 	Eval       bool         `json:"also_eval"`
@@ -157,10 +159,17 @@ func (t *target) configure(b *mocker.Builder, c *caseSpec) (w *mocker.When) {
 	if c.HasDefault {
 		if c.DefReturns {
 			var vs []interface{}
-			for k := 0; k < c.DefSeq; k++ {
+			n := c.DefSeq
+			if c.DefSplit > 0 && c.DefSplit < n {
+				n = c.DefSplit
+			}
+			for k := 0; k < n; k++ {
 				vs = append(vs, t.returnsArg(0, vidx(c.DefDups, k)))
 			}
 			w = bm.Returns(vs...)
+			for k := n; k < c.DefSeq; k++ {
+				w = w.AndReturn(t.resultArgs(0, vidx(c.DefDups, k))...)
+			}
 		} else {
 			w = bm.Return(t.resultArgs(0, 0)...)
 			for k := 1; k < c.DefSeq; k++ {
@@ -196,10 +205,17 @@ func (t *target) configure(b *mocker.Builder, c *caseSpec) (w *mocker.When) {
 		}
 		if cl.Returns {
 			var vs []interface{}
-			for k := 0; k < cl.Seq; k++ {
+			n := cl.Seq
+			if cl.Split > 0 && cl.Split < n {
+				n = cl.Split
+			}
+			for k := 0; k < n; k++ {
 				vs = append(vs, t.returnsArg(ci+1, vidx(cl.Dups, k)))
 			}
 			w = w.Returns(vs...)
+			for k := n; k < cl.Seq; k++ {
+				w = w.AndReturn(t.resultArgs(ci+1, vidx(cl.Dups, k))...)
+			}
 		} else {
 			w = w.Return(t.resultArgs(ci+1, 0)...)
 			for k := 1; k < cl.Seq; k++ {
@@ -279,6 +295,9 @@ func runCase(ci interface{}, s *vkit.Stats, prop string) error {
 		want := t.result(stub+1, vidx(mask, k))
 		if mask>>1&(1<<uint(seqLen(stub)-1)-1) != 0 && seqLen(stub) > 1 {
 			s.Class("sequence/with-repeated-neighbours")
+		}
+		if (stub >= 0 && c.Clauses[stub].Split > 0) || (stub < 0 && c.DefSplit > 0) {
+			s.Class("sequence/returns-then-andreturn")
 		}
 		if seqLen(stub) > 1 {
 			cursor[stub]++
@@ -383,6 +402,9 @@ func genCase(maxSeq, minCalls, maxCalls int) func(rt *rapid.T) interface{} {
 		if c.HasDefault {
 			c.DefSeq = rapid.IntRange(1, maxSeq).Draw(rt, "defseq")
 			c.DefReturns = rapid.Bool().Draw(rt, "defreturns")
+			if c.DefReturns && c.DefSeq > 1 && rapid.IntRange(0, 2).Draw(rt, "defsplit?") == 0 {
+				c.DefSplit = rapid.IntRange(1, c.DefSeq-1).Draw(rt, "defsplit")
+			}
 			if maxSeq > 1 && rapid.IntRange(0, 2).Draw(rt, "defdups") == 0 {
 				c.DefDups = uint(rapid.IntRange(0, 255).Draw(rt, "defmask")) &^ 1
 			}
@@ -401,6 +423,9 @@ func genCase(maxSeq, minCalls, maxCalls int) func(rt *rapid.T) interface{} {
 			cl := clauseSpec{Kind: "when", Seq: rapid.IntRange(1, maxSeq).Draw(rt, "seq"), Returns: rapid.Bool().Draw(rt, "returns")}
 			if maxSeq > 1 && rapid.IntRange(0, 2).Draw(rt, "dups") == 0 {
 				cl.Dups = uint(rapid.IntRange(0, 255).Draw(rt, "mask")) &^ 1
+			}
+			if cl.Returns && cl.Seq > 1 && rapid.IntRange(0, 2).Draw(rt, "split?") == 0 {
+				cl.Split = rapid.IntRange(1, cl.Seq-1).Draw(rt, "split")
 			}
 			first := i == 0 && !c.HasDefault
 			if !first && rapid.IntRange(0, 3).Draw(rt, "in-clause") == 0 {
